@@ -75,5 +75,48 @@ theorem runStrict_isSome_iff : ∀ (ops : List HeapOp) (st : St),
       rw [ih st1]
       omega
 
+/-! ### applicability: in a state in order, calls on value registers of the right kind apply -/
+
+theorem num_applies {st : St} (hi : Inv st) {v : Nat} {t : Word} {a : Addr} (hv : st.val v = some (t, .num a)) :
+    ∃ x, floatOf st.mem a = some x := by
+  obtain ⟨_, hp⟩ := val_frozen hi hv
+  obtain ⟨x, hm⟩ := frozen_num.mp (hp 1)
+  exact ⟨x, by simp [floatOf, hm]⟩
+
+theorem marked_applies {st : St} (hi : Inv st) {v : Nat} {t r : Word} {ms : Addr}
+    (hv : st.val v = some (t, .marked ms r)) : ∃ l, marksOf st.mem ms = some l := by
+  obtain ⟨_, hp⟩ := val_frozen hi hv
+  obtain ⟨⟨l, hm⟩, _⟩ := frozen_marked.mp (hp 1)
+  exact ⟨l, by simp [marksOf, hm]⟩
+
+/-- number accessors / operations apply to every number value register -/
+theorem number_calls_apply {st : St} (hi : Inv st) {v w : Nat} {t t' : Word} {a b : Addr}
+    (hv : st.val v = some (t, .num a)) (hw : st.val w = some (t', .num b)) :
+    (step st (.api (.asBigFloat v))).isSome = true ∧ (step st (.api (.opNegate v))).isSome = true ∧
+    (step st (.api (.opAdd v w))).isSome = true := by
+  obtain ⟨x, hx⟩ := num_applies hi hv
+  obtain ⟨y, hy⟩ := num_applies hi hw
+  simp [step, stepApi, hv, hw, hx, hy]
+
+/-- the mark calls apply to every value register -/
+theorem mark_calls_apply {st : St} (hi : Inv st) {v w : Nat} {t p t' q : Word} (mk : String)
+    (hv : st.val v = some (t, p)) (hw : st.val w = some (t', q)) :
+    (step st (.api (.marks v))).isSome = true ∧ (step st (.api (.unmark v))).isSome = true ∧
+    (step st (.api (.mark v mk))).isSome = true ∧ (step st (.api (.withSameMarks v w))).isSome = true := by
+  refine ⟨?_, ?_, ?_, ?_⟩
+  · cases p with
+    | marked ms r =>
+      obtain ⟨l, hl⟩ := marked_applies hi hv
+      simp [step, stepApi, hv, hl]
+    | _ => simp [step, stepApi, hv]
+  · cases p with
+    | marked ms r =>
+      obtain ⟨l, hl⟩ := marked_applies hi hv
+      simp [step, stepApi, hv, hl]
+    | _ => simp [step, stepApi, hv]
+  · simp [step, stepApi, hv]
+  · simp only [step, stepApi, hv, hw, Option.bind_eq_bind, Option.bind_some]
+    split <;> simp
+
 end Heap
 end CtyModel
